@@ -125,6 +125,12 @@ func checkString(w *hc.W, r *rig, space string, prefix, s []byte) {
 	if oneF.pending != "" {
 		w.Violation("leftover:"+space, fmt.Sprintf("%s/%s: after input %s%s and the escape timeout %d bytes remain buffered: %s", r.entry, r.cs, q(prefix), q(s), len(oneF.pending), oneF), rp([][]byte{s}))
 	}
+	if oneF.pending == "" && oneF.esc {
+		// an ESC held back as the Alt prefix of the next key is buffered input too: once the
+		// timeout has passed it has to be out (as the Esc key it was), not wait for a key
+		// typed any time later
+		w.Violation("leftover-alt:"+space+":"+r.cs, fmt.Sprintf("%s/%s: after input %s%s and the escape timeout nothing is buffered, but an Alt prefix is still pending: the next key, however much later, will carry Alt: %s", r.entry, r.cs, q(prefix), q(s), oneF), rp([][]byte{s}))
+	}
 	if len(oneF.evs) > 0 {
 		nontrivial := false
 		for _, e := range oneF.evs {
@@ -685,13 +691,25 @@ func runEntry(w *hc.W, e common.Entry) {
 	// character never completes: ESC is no trail byte anywhere) in front of a recognised sequence
 	if !legacyDone && p.HasMouse() && hasPaste && hc.Mine(0) {
 		legacyDone = true
-		for _, cs := range []string{"GBK", "GB18030", "Big5", "EUC-KR", "EUC-JP", "Shift_JIS", "ISO8859-1", "KOI8-R"} {
+		for _, cs := range []string{"GBK", "GB18030", "Big5", "EUC-KR", "EUC-JP", "Shift_JIS", "ISO8859-1", "KOI8-R", "US-ASCII"} {
 			lp, err := tcell.VerifNewParser(e.Ti, cs, 80, 24)
 			if err != nil {
 				w.Note("C02 legacy part: %s: %v", cs, err)
 				continue
 			}
 			lr := &rig{lp, e.Name, cs}
+			// ESC followed by a byte that is no text, and a lead byte followed by DEL (no trail
+			// byte in any of these sets)
+			for b0 := 0x80; b0 <= 0xff; b0++ {
+				checkString(w, lr, "legacy", nil, []byte{0x1b, byte(b0)})
+				checkString(w, lr, "legacy", nil, []byte{0x1b, byte(b0), '\r'})
+				w.R.Evaluations++
+				_, df, _ := lr.run(nil, [][]byte{{byte(b0), 0x7f}})
+				if n := len(df.evs); n == 0 || df.evs[n-1].Kind != "key" || (df.evs[n-1].Key != tcell.KeyBackspace2 && df.evs[n-1].Key != tcell.KeyBackspace) {
+					w.Violation("swallowed-after:legacy-lead-del:"+cs, fmt.Sprintf("%s/%s: %s decodes to %s: the DEL behind the byte %#x is gone", e.Name, cs, q([]byte{byte(b0), 0x7f}), df, b0),
+						map[string]interface{}{"Entry": e.Name, "Charset": cs, "Prefix": "", "Chunks": []string{string([]byte{byte(b0), 0x7f})}})
+				}
+			}
 			for _, tail := range []string{e.Ti.KeyUp, "\x1b[I", "\x1b[<0;3;4M", "\x1b[200~", "\x1bx"} {
 				_, tf, _ := lr.run(nil, [][]byte{[]byte(tail)})
 				for b0 := 0x80; b0 <= 0xff; b0++ {
